@@ -11,9 +11,14 @@ objects. `deq_structural` is its reading for nil options (C05 proper); with opti
 (Props/C11.lean). `deq_symmetric` / `deq_reflexive`: same answer in both argument orders, and `true` for a
 value against itself, for values whose maps have pairwise distinct keys (`MapKeysOK`).
 The model of the current tree differs on the classes `deq-ptr-leaf-nil` and `deq-nil-before-mustcheck`
-(`repo_not_correct`, `repo_not_correct_nil_before_mustcheck`).
+(`repo_not_correct`, `repo_not_correct_nil_before_mustcheck`) — that is the tree at the pinned commit
+(`GenCfg.original`). `section CurrentTree`: since the `fix:` commits `GenCfg.repo` has every switch DeepEqual reads
+off (`deqM_repo`, Proofs/DEQCurrent.lean), so every theorem above holds of the emitter as it stands:
+`deq_current`, `deq_anyroot_current`, `deq_structural_current`, `deq_symmetric_current`, `deq_reflexive_current`,
+`deq_check_current`.
 -/
 import InspectorModel.Proofs.DEQSym
+import InspectorModel.Proofs.DEQCurrent
 namespace Inspector.C05
 
 /-- The decision function of options.go with nil options: every field is checked. -/
@@ -113,13 +118,13 @@ example : deqM { cfg := GenCfg.fixed } exNode .ptr .ptr exA exA' = .t ∧
 /-- Known finding `deq-ptr-leaf-nil`: for a pointer-to-scalar struct field the emitted nil test looks at the
 parent's variables, so a cleared field is dereferenced: the current tree panics where `false` is due. -/
 theorem repo_not_correct :
-    deqAccepts (eqS {} exNode "" exA exB) (deqM { cfg := GenCfg.repo } exNode .ptr .ptr exA exB) = false := by
+    deqAccepts (eqS {} exNode "" exA exB) (deqM { cfg := GenCfg.original } exNode .ptr .ptr exA exB) = false := by
   decide
-example : deqM { cfg := GenCfg.repo } exNode .ptr .ptr exA exB = .panic := by decide
+example : deqM { cfg := GenCfg.original } exNode .ptr .ptr exA exB = .panic := by decide
 
 /-- The same class where `true` is due: both fields nil. -/
 theorem repo_not_correct_both_nil :
-    deqAccepts (eqS {} exNode "" exB exB) (deqM { cfg := GenCfg.repo } exNode .ptr .ptr exB exB) = false := by
+    deqAccepts (eqS {} exNode "" exB exB) (deqM { cfg := GenCfg.original } exNode .ptr .ptr exB exB) = false := by
   decide
 
 /-- Known finding `deq-nil-before-mustcheck`: the nil-ness test of a pointer-typed struct field is emitted
@@ -128,11 +133,11 @@ def exclP : Option DeqOpts := some { exclude := ["P"] }
 def exD : Val := mk 5 1000000 .nilptr (.ptr (.int 7)) [.str (strBytes "k"), .str (strBytes "l")] [.int 1, .int 2] [sB "e", .nilptr] [1, 2]
 theorem repo_not_correct_nil_before_mustcheck :
     deqAccepts (eqS { opts := exclP } exNode "" exA exD)
-      (deqM { cfg := GenCfg.repo, opts := exclP } exNode .ptr .ptr exA exD) = false := by
+      (deqM { cfg := GenCfg.original, opts := exclP } exNode .ptr .ptr exA exD) = false := by
   decide
 example : eqS { opts := exclP } exNode "" exA exD = .must ∧
     deqM { cfg := GenCfg.fixed, opts := exclP } exNode .ptr .ptr exA exD = .t ∧
-    deqM { cfg := GenCfg.repo, opts := exclP } exNode .ptr .ptr exA exD = .f := by decide
+    deqM { cfg := GenCfg.original, opts := exclP } exNode .ptr .ptr exA exD = .f := by decide
 /-- Pointer-typed map keys of independent objects (`ident := false`): `map[*int32]*int64`. The nil key equals
 itself, any other pointer key is never found; the answers stay symmetric, also with the nil key on one side only. -/
 def pkNode : Node := .map { typn := "PK" } (.basic { typn := "int32", typu := "int32", ptr := true })
@@ -207,5 +212,76 @@ theorem distinctKeys_needed_sym :
     deqM { cfg := GenCfg.fixed } miNode .ptr .ptr a b = .t ∧ deqM { cfg := GenCfg.fixed } miNode .ptr .ptr b a = .f := by
   decide
 end Necessity
+
+/-! ### The tree as it is now
+
+After the generator `fix:` commits that concern DeepEqual (nil-ness of pointer-to-scalar fields, nil test inside
+the `DEQMustCheck` wrapper) and the typed-nil-root fix, no switch that `deqM` consults (`deqPtrLeafNilUnchecked`,
+`deqNilBeforeMustCheck`, `nilRootPanics`) is left on in `GenCfg.repo`: the model of the current tree *is* the
+repaired model, for every pair of argument forms, every option set and `ident`. -/
+section CurrentTree
+open Inspector.DEQCurrent
+
+/-- DeepEqual of the current tree is DeepEqual of the repaired emitter (any environment, any argument forms). -/
+theorem deqM_repo (env : DeqEnv) (n : Node) (fl fr : Form) (l r : Val) :
+    deqM { env with cfg := GenCfg.repo } n fl fr l r = deqM { env with cfg := GenCfg.fixed } n fl fr l r :=
+  DEQCurrent.deqM_repo env n fl fr l r
+
+/-- C05 (and C11) for the emitter as it stands. -/
+theorem deq_current (n : Node) (a b : Val) (opts : Option DeqOpts) (ident : Bool)
+    (hroot : RootOK n = true) (hok : EmitOK n = true) (hnames : PathNamesOK n = true)
+    (hwa : WT n a = true) (hwb : WT n b = true) :
+    deqAccepts (eqS { opts := opts, ident := ident } n "" a b)
+      (deqM { cfg := GenCfg.repo, opts := opts, ident := ident } n .ptr .ptr a b) = true := by
+  rw [deqM_repo_mk]; exact deq_correct n a b opts ident hroot hok hnames hwa hwb
+
+theorem deq_anyroot_current (n : Node) (a b : Val) (opts : Option DeqOpts) (ident : Bool)
+    (hroot : n.isBytes = false) (hok : EmitOK n = true) (hnames : PathNamesOK n = true)
+    (hwa : WT n a = true) (hwb : WT n b = true) :
+    deqAccepts (eqS { opts := opts, ident := ident } n "" a b)
+      (deqM { cfg := GenCfg.repo, opts := opts, ident := ident } n .ptr .ptr a b) = true := by
+  rw [deqM_repo_mk]; exact deq_correct_anyroot n a b opts ident hroot hok hnames hwa hwb
+
+/-- C05 proper for the emitter as it stands: plain `DeepEqual` (nil options). -/
+theorem deq_structural_current (n : Node) (a b : Val) (ident : Bool)
+    (hroot : RootOK n = true) (hok : EmitOK n = true) (hnames : PathNamesOK n = true)
+    (hwa : WT n a = true) (hwb : WT n b = true) :
+    deqAccepts (eqS { opts := none, ident := ident } n "" a b)
+      (deqM { cfg := GenCfg.repo, opts := none, ident := ident } n .ptr .ptr a b) = true :=
+  deq_current n a b none ident hroot hok hnames hwa hwb
+
+theorem deq_symmetric_current (n : Node) (a b : Val) (opts : Option DeqOpts) (ident : Bool)
+    (hwa : WT n a = true) (hwb : WT n b = true) (hka : MapKeysOK a = true) (hkb : MapKeysOK b = true) :
+    deqM { cfg := GenCfg.repo, opts := opts, ident := ident } n .ptr .ptr a b =
+      deqM { cfg := GenCfg.repo, opts := opts, ident := ident } n .ptr .ptr b a := by
+  rw [deqM_repo_mk, deqM_repo_mk]; exact deq_symmetric n a b opts ident hwa hwb hka hkb
+
+theorem deq_reflexive_current (n : Node) (a : Val) (opts : Option DeqOpts)
+    (hwa : WT n a = true) (hka : MapKeysOK a = true) :
+    deqM { cfg := GenCfg.repo, opts := opts, ident := true } n .ptr .ptr a a = .t := by
+  rw [deqM_repo_mk]; exact deq_reflexive n a opts hwa hka
+
+/-- All three conjuncts of the check `opDeq` applies, at once, for the emitter as it stands. -/
+theorem deq_check_current (n : Node) (a b : Val) (opts : Option DeqOpts) (ident : Bool)
+    (hroot : RootOK n = true) (hok : EmitOK n = true) (hnames : PathNamesOK n = true)
+    (hwa : WT n a = true) (hwb : WT n b = true) (hka : MapKeysOK a = true) (hkb : MapKeysOK b = true) :
+    let env : DeqEnv := { cfg := GenCfg.repo, opts := opts, ident := ident }
+    let t := eqS { opts := opts, ident := ident } n "" a b
+    (deqAccepts t (deqM env n .ptr .ptr a b) && deqAccepts t (deqM env n .ptr .ptr b a) &&
+      deqM env n .ptr .ptr a b == deqM env n .ptr .ptr b a) = true := by
+  intro env t
+  show (deqAccepts t (deqM { cfg := GenCfg.repo, opts := opts, ident := ident } n .ptr .ptr a b) &&
+      deqAccepts t (deqM { cfg := GenCfg.repo, opts := opts, ident := ident } n .ptr .ptr b a) &&
+      deqM { cfg := GenCfg.repo, opts := opts, ident := ident } n .ptr .ptr a b ==
+        deqM { cfg := GenCfg.repo, opts := opts, ident := ident } n .ptr .ptr b a) = true
+  rw [deqM_repo_mk, deqM_repo_mk]
+  exact deq_check n a b opts ident hroot hok hnames hwa hwb hka hkb
+
+/-- The witnesses on which the tree at the pinned commit was rejected are accepted now. -/
+example : deqM { cfg := GenCfg.repo } exNode .ptr .ptr exA exB = .f ∧
+    deqM { cfg := GenCfg.repo } exNode .ptr .ptr exB exB = .t ∧
+    deqM { cfg := GenCfg.repo, opts := exclP } exNode .ptr .ptr exA exD = .t := by decide
+
+end CurrentTree
 
 end Inspector.C05
